@@ -39,6 +39,16 @@ marker-loop|tars/selector/selector.go|s/for i := 0; i < totalWeight; i\+\+ \{/fo
 not-inversion|tars/errors.go|s/\tif !ok \{\n\t\treturn 1\n\t\}\n\treturn e\.Code\n/\tif ok {\n\t\treturn e.Code\n\t}\n\treturn 1\n/
 neg-compare|tars/protocol/tarsprotocol.go|s/if len\(rev\) < 4 \{/if !(len(rev) >= 4) {/
 neg-compare|tars/util/rtimer/timewheel.go|s/if 0 < pos \{/if !(pos <= 0) {/
+reader-conds|tars/protocol/codec/codec.go|s/\tif tag == 15 \{\n\t\tdata, err = b\.buf\.ReadByte\(\)/\tif 15 == tag {\n\t\tdata, err = b.buf.ReadByte()/; s/if curTag >= 15 \{/if !(curTag < 15) {/; s/if len < 0 \|\| int\(len\) > b\.buf\.Len\(\) \{\n\t\treturn fmt\.Errorf\("read \[\]byte error/if int(len) > b.buf.Len() || 0 > len {\n\t\treturn fmt.Errorf("read []byte error/
+selector-conds|tars/selector/consistenthash/consistenthash_new.go|s/if len\(c\.sortedKeys\) == 0 \{/if 0 == len(c.sortedKeys) {/; s/return c\.sortedKeys\[x\] >= key/return key <= c.sortedKeys[x]/; s/if index >= len\(c\.sortedKeys\) \{/if !(index < len(c.sortedKeys)) {/
+selector-conds|tars/selector/modhash/modhash.go|s/if len\(m\.staticWeightRouterCache\) != 0 \{\n\t\tidx := m\.staticWeightRouterCache\[hashCode%uint32\(len\(m\.staticWeightRouterCache\)\)\]\n\t\treturn m\.endpoints\[idx\], nil\n\t\}\n\treturn m\.endpoints\[hashCode%uint32\(len\(m\.endpoints\)\)\], nil/if len(m.staticWeightRouterCache) == 0 {\n\t\treturn m.endpoints[hashCode%uint32(len(m.endpoints))], nil\n\t}\n\tidx := m.staticWeightRouterCache[hashCode%uint32(len(m.staticWeightRouterCache))]\n\treturn m.endpoints[idx], nil/
+selector-conds|tars/selector/selector.go|s/if maxWeight < weight \{/if weight > maxWeight {/
+checkactive-conds|tars/adapter.go|s/if \(now-c\.lastSuccessTime\) >= failInterval && c\.lastFailCount >= fainN \{/if c.lastFailCount >= fainN \&\& failInterval <= (now-c.lastSuccessTime) {/; s/if \(now - c\.lastBlockTime\) >= tryTimeInterval \{/if !((now - c.lastBlockTime) < tryTimeInterval) {/
+marker-assign-order|tars/tarsprotocol.go|s/\t\t\t\trspPackage\.IRet = 1\n\t\t\t\trspPackage\.SResultDesc = err\.Error\(\)\n/\t\t\t\trspPackage.SResultDesc = err.Error()\n\t\t\t\trspPackage.IRet = 1\n/; s/\t\trspPackage\.IRet = basef\.TARSSERVERQUEUETIMEOUT\n\t\trspPackage\.SResultDesc = "server invoke timeout"\n/\t\trspPackage.SResultDesc = "server invoke timeout"\n\t\trspPackage.IRet = basef.TARSSERVERQUEUETIMEOUT\n/
+recv-conds|tars/transport/tcphandler.go|s/if len\(currBuffer\) > 0 \{\n(\t+)continue/if !(len(currBuffer) <= 0) {\n$1continue/
+recv-conds|tars/transport/tarsclient.go|s/if len\(currBuffer\) > 0 \{\n(\t+)continue/if 0 < len(currBuffer) {\n$1continue/
+reply-conds|tars/servant.go|s/if msg\.Resp\.IRet != 0 && msg\.Resp\.IRet != 1 \{\n(\t+)return &Error\{Code: msg\.Resp\.IRet, Message: desc\}\n(\t+)\}\n(\t+)return errors\.New\(desc\)/if msg.Resp.IRet == 0 || msg.Resp.IRet == 1 {\n$1return errors.New(desc)\n$2}\n$3return \&Error{Code: msg.Resp.IRet, Message: desc}/
+tup-conds|tars/protocol/tup/tup.go|s/\t\t\tif ty == codec\.SimpleList \{/\t\t\tif codec.SimpleList == ty {/
 EOF
 )
 
